@@ -10,7 +10,7 @@ use oracle::rng::mix;
 use serde_json::json;
 
 pub const ID: &str = "C05";
-pub const FAMS: [&str; 5] = ["auto-version-every-length", "forced-at-threshold", "far-beyond", "forced-every-version", "no-level-given"];
+pub const FAMS: [&str; 6] = ["auto-version-every-length", "forced-at-threshold", "far-beyond", "forced-every-version", "no-level-given", "magic-prefix-at-threshold"];
 
 const MAX_LEN: usize = 7200;
 
@@ -137,6 +137,42 @@ pub fn jobs(ctx: &Ctx) -> Vec<Job> {
             }
         }
     }
+    // content is not a dimension of the capacity rule - so payloads that BEGIN with something meaningful (byte order
+    // marks, URL schemes, GS1/AIM escapes, magic numbers: the dictionary of job.rs) are put exactly at, and 1-3 bytes
+    // beyond, capacity thresholds of their own class, with automatic version and with the version below / at the
+    // smallest sufficient one forced: a constructor that drops, folds or re-classifies a prefix moves the threshold
+    {
+        let mut n = 0usize;
+        for (pre_class, list) in [(2usize, crate::job::BYTE_PREFIXES), (1usize, crate::job::ALNUM_PREFIXES)] {
+            for pre in list {
+                for rep in 0..ctx.tier.pick(2usize, 12) {
+                    n += 1;
+                    let level = (n + rep) % 4;
+                    let v = 1 + (n * 7 + rep * 11) % if rep == 0 { 9 } else { 40 };
+                    let filler_span = if pre_class == 1 { 45 } else { 256 };
+                    for d in 0..4usize {
+                        let mut p = pre.to_vec();
+                        let class0 = oracle::tables::classify(&p).max(pre_class);
+                        let target = caps.cap(v, level, class0) + d;
+                        if target < p.len() + 1 {
+                            continue;
+                        }
+                        let mut x = mix(ctx.seed, (n * 4 + d) as u64);
+                        while p.len() < target {
+                            x = mix(x, 1);
+                            p.push(crate::job::alphabet(pre_class, x as usize % filler_span));
+                        }
+                        let class = oracle::tables::classify(&p);
+                        for (mode, version) in [(None, None), (Some(class), None), (Some(class), Some(v)), (None, Some((v + 1).min(40)))] {
+                            let mut j = mk(FAMS[5], class, mode, level, version, p.len(), &mut k);
+                            j.payload = Some(p.clone());
+                            jobs.push(j);
+                        }
+                    }
+                }
+            }
+        }
+    }
     jobs
 }
 
@@ -227,7 +263,7 @@ pub fn run(ctx: &Ctx) -> Report {
     let mut rep = Report::new(
         st,
         &format!(
-            "jobs = EVERY length 0..={MAX_LEN} x 3 modes x 4 levels with automatic version (mode forced; additionally automatic mode at every 8th length and within +-2 of all 480 thresholds), forced versions {{1, vmin-1, vmin, vmin+1, v, 40}} at all 480 thresholds +-1, lengths 10^4, 65535, 65536, 10^5, 10^6, builds with NO level given (Q in effect) at every Q threshold +-2, every 16th length and the stretch from the version-40 capacity at Q to beyond the one at L{}; expected outcome from the oracle's capacity arithmetic (4 + count bits + payload bits <= 8 x data codewords, Table 9 derived), observed outcome must be Ok with exactly that version / Err(SpecifiedVersion) / Err(EncodedData), never a panic (overflow checks on); capacity-filling and threshold symbols plus every 16th build are fully reference-decoded; distinct key = (mode, level, forced version, len); non-trivial = every case (each is one point of the property's quantifier)",
+            "payloads that begin with a dictionary prefix (byte order marks, URL schemes, escapes, magic numbers) sit exactly at and 1-3 bytes beyond capacity thresholds of their own class, automatic and forced version; jobs = EVERY length 0..={MAX_LEN} x 3 modes x 4 levels with automatic version (mode forced; additionally automatic mode at every 8th length and within +-2 of all 480 thresholds), forced versions {{1, vmin-1, vmin, vmin+1, v, 40}} at all 480 thresholds +-1, lengths 10^4, 65535, 65536, 10^5, 10^6, builds with NO level given (Q in effect) at every Q threshold +-2, every 16th length and the stretch from the version-40 capacity at Q to beyond the one at L{}; expected outcome from the oracle's capacity arithmetic (4 + count bits + payload bits <= 8 x data codewords, Table 9 derived), observed outcome must be Ok with exactly that version / Err(SpecifiedVersion) / Err(EncodedData), never a panic (overflow checks on); capacity-filling and threshold symbols plus every 16th build are fully reference-decoded; distinct key = (mode, level, forced version, len); non-trivial = every case (each is one point of the property's quantifier)",
             if thorough { "; thorough: EVERY forced version 1..40 for EVERY length 0..=cap(40)+2" } else { "" }
         ),
     );
